@@ -18,7 +18,7 @@ from . import gen_graphs as gg
 from .core import Collector, h64
 
 
-def plan(tier: str, seed: int, scale: float = 1.0, max_n_quick=14, max_n_thorough=40, corpus=True):
+def plan(tier: str, seed: int, scale: float = 1.0, max_n_quick=14, max_n_thorough=32, corpus=True):
     specs = []
     if tier == "quick":
         specs.append(("enum", 1, 0, 1, 1, 0))
@@ -45,7 +45,7 @@ def plan(tier: str, seed: int, scale: float = 1.0, max_n_quick=14, max_n_thoroug
             specs.append(("canon", 6, s, 16, max(1, int(round(4 / scale))), 2, seed))
         for s in range(16):
             specs.append(("canon", 7, s, 16, max(1, int(round(150 / scale))), 2, seed))
-        ex = max(50, int(1000 * scale))
+        ex = max(50, int(600 * scale))
         for s in range(32):
             specs.append(("hyp", seed, s, ex, max_n_thorough))
         if corpus:
